@@ -72,9 +72,27 @@ AddToTrack(t, c) ==
           /\ next' = n1
           /\ tfdt' = IF setTfdt THEN [tfdt EXCEPT ![t] = dts] ELSE tfdt
           /\ mdat' = Append(mdat, tok)
-          /\ added' = [added EXCEPT ![t] = Append(@, [cls |-> c, tok |-> tok, dts |-> dts])]
+          /\ added' = [added EXCEPT ![t] = Append(@, [cls |-> c, tok |-> tok, dts |-> dts, first |-> FALSE])]
           /\ nadds' = nadds + 1
     /\ UNCHANGED enc
+
+\* Impl of Fragment.AddSample / AddSamples on a multi-track fragment: the sample goes to the FIRST trun of the first track
+\* whatever was written last (the caller writes its data behind that trun's other samples). Taken only where it differs
+\* from AddToTrack (another trun was written since) and where the track has no later trun whose times it would shift.
+FirstTrack == TrackSeq[1]
+AddFirst(c) ==
+    /\ Kind = "multi" /\ enc = "none" /\ nadds < MaxAdds
+    /\ Len(trafs[FirstTrack]) = 1 /\ trafs[FirstTrack][1].wo # next - 1
+    /\ LET tok == nadds + 1
+           dts == NextDts(FirstTrack)
+           ss == trafs[FirstTrack][1].samples
+           lastTok == ss[Len(ss)].tok
+           idx == CHOOSE j \in 1 .. Len(mdat) : mdat[j] = lastTok
+       IN /\ trafs' = [trafs EXCEPT ![FirstTrack][1].samples = Append(@, [cls |-> c, tok |-> tok])]
+          /\ mdat' = SubSeq(mdat, 1, idx) \o <<tok>> \o SubSeq(mdat, idx + 1, Len(mdat))
+          /\ added' = [added EXCEPT ![FirstTrack] = Append(@, [cls |-> c, tok |-> tok, dts |-> dts, first |-> TRUE])]
+          /\ nadds' = nadds + 1
+    /\ UNCHANGED <<next, tfdt, enc>>
 
 (* ------------------------------------------------------ Impl of Encode *)
 TokSize == [k \in 1 .. nadds |-> LET t == CHOOSE t \in TSet : \E i \in 1 .. Len(added[t]) : added[t][i].tok = k
@@ -109,13 +127,14 @@ OffsetOf(o, t, k) == MoofSize(o) + 8 + SumF([w \in 0 .. (next - 1) |->
                         IF w < trafs[t][k].wo /\ \E x \in AllTruns : trafs[x[1]][x[2]].wo = w
                         THEN LET x == CHOOSE x \in AllTruns : trafs[x[1]][x[2]].wo = w IN TrunData(x[1], x[2]) ELSE 0], 0, next - 1)
 \* position of each token in the file (moof at 0)
-TokPos(o, k) == MoofSize(o) + 8 + SumF(TokSize, 1, k - 1)
+TokPos(o, k) == LET idx == CHOOSE j \in 1 .. Len(mdat) : mdat[j] = k
+                IN MoofSize(o) + 8 + SumF([j \in 1 .. Len(mdat) |-> TokSize[mdat[j]]], 1, idx - 1)
 
 Encode(opt) ==
     /\ enc = "none" /\ nadds >= 1
     /\ enc' = IF opt THEN "opt" ELSE "plain"
     /\ UNCHANGED <<trafs, next, tfdt, mdat, added, nadds>>
-Next == (\E t \in TSet, c \in Classes : AddToTrack(t, c)) \/ (\E o \in BOOLEAN : Encode(o))
+Next == (\E t \in TSet, c \in Classes : AddToTrack(t, c)) \/ (\E c \in Classes : AddFirst(c)) \/ (\E o \in BOOLEAN : Encode(o))
 Spec == Init /\ [][Next]_vars
 
 (* -------------------------------------------- Prop: ISO read-back = added *)
@@ -158,7 +177,8 @@ Export == (DoExport /\ enc # "none") =>
     PrintT(ToJson([kind |-> Kind, tracks |-> TrackSeq, opt |-> enc = "opt",
                    hist |-> [k \in 1 .. nadds |-> LET t == CHOOSE t \in TSet : \E i \in 1 .. Len(added[t]) : added[t][i].tok = k
                                                       i == CHOOSE i \in 1 .. Len(added[t]) : added[t][i].tok = k
-                                                  IN [t |-> t, cls |-> added[t][i].cls, dts |-> added[t][i].dts, d |-> ClassDef(added[t][i].cls)]],
+                                                  IN [t |-> t, cls |-> added[t][i].cls, dts |-> added[t][i].dts, d |-> ClassDef(added[t][i].cls), first |-> added[t][i].first]],
+                   data |-> mdat,
                    impl |-> [truns |-> [i \in 1 .. Len(TrackSeq) |-> [k \in 1 .. Len(trafs[TrackSeq[i]]) |->
                                            [wo |-> trafs[TrackSeq[i]][k].wo, n |-> Len(trafs[TrackSeq[i]][k].samples), off |-> OffsetOf(o, TrackSeq[i], k)]]],
                              tfdt |-> [i \in 1 .. Len(TrackSeq) |-> tfdt[TrackSeq[i]]], moof |-> MoofSize(o), next |-> next]]))
